@@ -10,19 +10,20 @@ package main
 //   c13_forced.go  schedules forced deterministically through the library's own callbacks
 //                  (adapter, matcher function, logger), all inside the guards
 //   c13_probe.go   dedicated probes for the known findings F19 (two-phase LoadPolicy) and
-//                  F20 (pattern role manager temp roles + g() memo), and a note-only probe of
-//                  the GetPolicy result aliasing that motivates one guard of the main stream
+//                  F20 (pattern role manager temp roles + g() memo)
 //
 // Guards of the main stream (so that it never trips over a known finding):
 //   * a history contains LoadPolicy only together with readers {Enforce, GetPolicy, HasPolicy}
 //     (F19: LoadPolicy is two critical sections);
 //   * no matching function / pattern model in the random stream (F20);
 //   * UpdatePolicy targets come from a reserved pool never used by Add and each at most once
-//     per history (F08 of C06: update to an already listed rule duplicates it);
-//   * the recorded result of GetPolicy is compared only when no successful RemovePolicy /
-//     UpdatePolicy call is concurrent with GetPolicy-plus-copy: SyncedEnforcer.GetPolicy returns
-//     the enforcer's internal rule slice, so the harness's copy of it after the read lock was
-//     released can be torn by an in-place shift/overwrite (reported in the notes).
+//     per history (F08 of C06: update to an already listed rule duplicates it).
+//
+// F38 (repaired in /repo, so part of the main stream): SyncedEnforcer.GetPolicy & co. used to
+// return the enforcer's internal rule slice, which a later RemovePolicy/UpdatePolicy rewrote in
+// place.  Every recorded GetPolicy call keeps the slice it was given and the slice is rendered a
+// second time after quiescence: it must still read what it read when the call returned; a
+// deterministic witness is one of the forced schedules (c13.f.getters-own-their-result).
 
 import (
 	"fmt"
@@ -529,7 +530,10 @@ func c13Cp(r []string) []string { return append([]string(nil), r...) }
 
 // c13Apply performs one call and renders its result canonically.  Rules are copied per call:
 // the enforcer keeps the slices it is given.
-func c13Apply(e c13API, op c13Op) string {
+func c13Apply(e c13API, op c13Op) string { return c13ApplyHold(e, op, nil) }
+
+// c13ApplyHold is c13Apply that also hands out the raw slice returned by GetPolicy.
+func c13ApplyHold(e c13API, op c13Op, hold *[][]string) string {
 	switch op.kind {
 	case c13Enforce:
 		args := make([]interface{}, len(op.a))
@@ -559,8 +563,10 @@ func c13Apply(e c13API, op c13Op) string {
 		return errStr(e.SavePolicy())
 	case c13GetP:
 		p, err := e.GetPolicy()
-		// the copy is part of the recorded call (its return stamp is taken afterwards)
-		s := rulesKey(c13CopyRules(p))
+		if hold != nil {
+			*hold = p
+		}
+		s := rulesKey(p)
 		if err != nil {
 			s += "/err"
 		}
@@ -579,7 +585,7 @@ type c13Call struct {
 	inv  int64
 	ret  int64
 	res  string
-	wild bool // result not compared (GetPolicy aliasing guard)
+	held [][]string // GetPolicy: the very slice the call returned (not a copy), re-read after quiescence
 	done int32
 }
 
@@ -608,6 +614,8 @@ type c13Outcome struct {
 	finP  [][]string
 	finG  [][]string
 	finAd [][]string
+	// problems found while finishing the run (returned results that changed afterwards)
+	problems []string
 }
 
 var c13Sink int64
@@ -650,7 +658,7 @@ func c13RunRandom(h *c13History) *c13Outcome {
 					runtime.Gosched()
 				}
 				call.inv = c13Tick()
-				call.res = c13Apply(e, call.op)
+				call.res = c13ApplyHold(e, call.op, &call.held)
 				call.ret = c13Tick()
 			}
 		}(g)
@@ -668,15 +676,10 @@ func c13Finish(out *c13Outcome) {
 	out.finP = c13CopyRules(p)
 	out.finG = c13CopyRules(g)
 	out.finAd = out.ad.snapshot()
-	// GetPolicy aliasing guard
+	// F38: what a completed GetPolicy call returned belongs to the caller
 	for _, c := range out.calls {
-		if c.op.kind != c13GetP {
-			continue
-		}
-		for _, w := range out.calls {
-			if (w.op.kind == c13RemP || w.op.kind == c13UpdP) && w.res == "t" && c13Overlap(c, w) {
-				c.wild = true
-			}
+		if c.op.kind == c13GetP && c.held != nil && rulesKey(c.held) != strings.TrimSuffix(c.res, "/err") {
+			out.problems = append(out.problems, fmt.Sprintf("the rule list returned by the completed call [%d,%d]GetPolicy() read %s when it returned and reads %s after quiescence: the result aliases the enforcer's internal storage", c.inv, c.ret, c.res, rulesKey(c.held)))
 		}
 	}
 }
@@ -701,11 +704,7 @@ func c13Replay(spec *c13Spec, init, drift [][]string, calls []*c13Call) string {
 			fmt.Fprintf(&b, " || g%d:", c.g)
 			last = c.g
 		}
-		w := ""
-		if c.wild {
-			w = "(unchecked)"
-		}
-		fmt.Fprintf(&b, " [%d,%d]%s=%s%s;", c.inv, c.ret, c.op.String(), c.res, w)
+		fmt.Fprintf(&b, " [%d,%d]%s=%s;", c.inv, c.ret, c.op.String(), c.res)
 	}
 	return b.String()
 }
@@ -750,7 +749,7 @@ func c13Quiescence(spec *c13Spec, out *c13Outcome, inSync bool) []string {
 type c13Stats struct {
 	total, overlap, nontrivial int
 	maxNodes, sumNodes         int
-	unchecked, getPolicy       int
+	getPolicy                  int
 }
 
 func c13NodeBucket(n int) string {
@@ -788,10 +787,6 @@ func c13Judge(c *Ctx, st *c13Stats, id, kind string, spec *c13Spec, init, drift 
 		c.Count("op=" + c13KindName[cl.op.kind])
 		if cl.op.kind == c13GetP {
 			st.getPolicy++
-		}
-		if cl.wild {
-			c.Count("getpolicy-result-unchecked(alias-guard)")
-			st.unchecked++
 		}
 	}
 	// overlap / non-triviality
@@ -856,6 +851,7 @@ func c13Judge(c *Ctx, st *c13Stats, id, kind string, spec *c13Spec, init, drift 
 		bad = append(bad, "history not linearizable")
 	}
 	bad = append(bad, c13Quiescence(spec, out, inSync)...)
+	bad = append(bad, out.problems...)
 	bad = append(bad, extra...)
 	if len(bad) == 0 {
 		c.Obs(id, "result", "ok")
@@ -1102,7 +1098,7 @@ func init() {
 			"Forced stream: schedules pinned through the library's callbacks (adapter, AddFunction matcher function, log.Logger) with stamp assertions (who must wait for whom) plus the same checks. " +
 			"Guards: LoadPolicy only in histories whose other calls are readers (F19), the store then drifted out of band so that LoadPolicy changes the state; " +
 			"no matching function / pattern model in either stream (F20: probe only); UpdatePolicy targets from a reserved pool, each at most once per history (F08 of C06); " +
-			"GetPolicy results compared only when no successful RemovePolicy/UpdatePolicy overlaps GetPolicy-plus-copy (the returned slice aliases internal storage). " +
+			"The slice returned by every GetPolicy call is kept and re-read after quiescence: it must not have changed (F38, repaired). " +
 			"Non-trivial = at least two calls of different goroutines overlapped in real time (by stamps) and one of them was a state-changing call (or the search had to try more than one order); " +
 			"distinct by (stream, model, multiset of call kinds per goroutine, hash of the multiset of overlapping kind pairs)."
 
@@ -1137,15 +1133,15 @@ func init() {
 
 		c13ProbeF19(c)
 		c13ProbeF20(c)
-		c13ProbeAlias(c)
 
+		c13TableNotes(c)
 		c.Notes = append(c.Notes,
 			"exploration, not proof: the lock-protocol theorem is in Coq (Properties/C13.v); this harness samples schedules on the real code",
 			fmt.Sprintf("random histories: %d, with real overlap (two calls of different goroutines overlapping by stamps): %d, non-trivial: %d", randTotal, randOverlap, randNontriv),
 			fmt.Sprintf("forced schedules: %d (adapter / matcher function / logger callbacks)", nForced),
-			fmt.Sprintf("linearization search: max nodes %d, mean nodes %.2f; GetPolicy results left unchecked by the alias guard: %d of %d", st.maxNodes, float64(st.sumNodes)/float64(st.total+1), st.unchecked, st.getPolicy),
+			fmt.Sprintf("linearization search: max nodes %d, mean nodes %.2f; GetPolicy calls whose returned slice was re-read after quiescence: %d", st.maxNodes, float64(st.sumNodes)/float64(st.total+1), st.getPolicy),
 			fmt.Sprintf("GOMAXPROCS=%d wall=%.1fs", runtime.GOMAXPROCS(0), time.Since(t0).Seconds()),
-			"guards: no LoadPolicy together with writers (F19); no pattern model / matching function in the random or forced stream (F20); UpdatePolicy targets from a reserved pool, each at most once (F08); GetPolicy result unchecked when a successful RemovePolicy/UpdatePolicy overlaps it (result aliases internal storage)",
+			"guards: no LoadPolicy together with writers (F19); no pattern model / matching function in the random or forced stream (F20); UpdatePolicy targets from a reserved pool, each at most once (F08)",
 		)
 	})
 }
